@@ -2358,6 +2358,15 @@ __make_evrdat(echs_event_t e, const echs_instant_t *d, size_t nd)
 		}
 		/* now sort */
 		echs_instant_sort(rd, nd);
+		/* an instant given twice is still one occurrence */
+		with (size_t j = 1U) {
+			for (size_t i = 1U; i < nd; i++) {
+				if (!echs_instant_eq_p(rd[i], rd[j - 1U])) {
+					rd[j++] = rd[i];
+				}
+			}
+			nd = j;
+		}
 		/* now spread out the instants as echs events */
 		for (size_t i = 0U; i < nd; i++) {
 			e.from = echs_instant_rescale(rd[i], cal);
